@@ -488,6 +488,11 @@ class AsyncServer(base_server.BaseServer):
 
         if transport == 'websocket':
             ret = await s.handle_get_request(environ)
+            if isinstance(ret, list) and len(ret) > 0:
+                # the request did not carry the headers of a websocket
+                # upgrade, so it was handled as a poll
+                await s.close(wait=False, abort=True)
+                ret = self._bad_request('Invalid websocket upgrade')
             if s.closed and sid in self.sockets:
                 # websocket connection ended, so we are done
                 del self.sockets[sid]
